@@ -20,6 +20,7 @@ Open Scope N_scope.
    type declared in the source (a narrower atomic type would reissue counts after 2^bits calls) *)
 Theorem C20_counter_width : temp_counter_bits = 64.
 Proof. reflexivity. Qed.
+Print Assumptions C20_counter_width.
 
 (* nothing but temp_file_name touches the counter (generated from the whole crate on every check): the theorems
    below are about calls that all run the one generated program on it *)
